@@ -255,6 +255,14 @@ class CheckRun:
         cases = []
         for c in s.corpus():
             cases.append(("corpus", c))
+        # regression corpus kept as files: corpus/<PROP>/auto_<stream>_*.json (a replay file, or {"case": ...}); these are
+        # past failures of this stream (found by a thorough run, a seeded change, ...) and always run first
+        import glob
+        for f in sorted(glob.glob(os.path.join(VERIF, "corpus", self.prop, f"auto_{s.name}_*.json"))):
+            try:
+                cases.append(("corpus-file", json.load(open(f))["case"]))
+            except Exception as e:
+                self.notes.append(f"unreadable corpus file {f}: {e}")
         if s.exhaustive is not None:
             for c in s.exhaustive():
                 cases.append(("exhaustive", c))
